@@ -46,6 +46,11 @@ def templates():
               lambda n: C("t", [I(n), I(0)]), lambda n: n))
     T.append(("if_error2", True, [FN("t", ps2, "int", C("if_error", [C("if", [stop, V("acc"), C("error", [{"k": "lit", "ty": "str", "v": "again"}], cast="int")]), step]))],
               lambda n: C("t", [I(n), I(0)]), lambda n: n))
+    S_ = lambda t: {"k": "lit", "ty": "str", "v": t}
+    T.append(("if_error3", True, [FN("t", ps2, "int", C("if_error", [C("if", [stop, V("acc"), C("error", [S_("more")], cast="int")]), S_("more"), step]))],
+              lambda n: C("t", [I(n), I(0)]), lambda n: n))
+    T.append(("if_error3_empty_msg", True, [FN("t", ps2, "int", C("if_error", [C("if", [stop, V("acc"), C("error", [S_("more")], cast="int")]), S_(""), step]))],
+              lambda n: C("t", [I(n), I(0)]), lambda n: n))
     T.append(("or_bool", True, [FN("t", [P("n", "int")], "bool", OP("or", stop, C("t", [dec])))], lambda n: C("t", [I(n)]), lambda n: True))
     T.append(("and_bool", True, [FN("t", [P("n", "int")], "bool", OP("and", go, C("t", [dec])))], lambda n: C("t", [I(n)]), lambda n: False))
     T.append(("opt_or", True, [FN("t", ps2, "Optional<int>", C("opt_or", [C("then", [stop, V("acc")]), step]))],
